@@ -615,84 +615,194 @@ func rc8bImplicitDep(w *World, info *types.Info, body *ast.BlockStmt, setBlocked
 		w.undecided("RC8|asFile|implicit-dep-published", body.Pos(), "the implicit dependency "+implicitPath+" is compiled, but the boolean that guards it or the published list cannot be identified")
 		return
 	}
-	found := false
-	ast.Inspect(body, func(x ast.Node) bool {
-		blk, ok := x.(*ast.BlockStmt)
-		if !ok {
-			return true
+	// Dataflow formulation: at the publication setBlockedOn(L), on every path, either the flag is
+	// known to be false or L holds the path. "safe" is that disjunction kept as one fact so that it
+	// survives joins of paths that are safe for different reasons. L holds the path after
+	// L = append(…, path), L = X where X[…] = path was stored / X was built so, or L = helper(…,
+	// path) for a helper of the package that stores its parameter into the slice it returns.
+	helperStores := func(c *ast.CallExpr) bool {
+		f := callee(info, c)
+		if f == nil {
+			return false
 		}
-		setsFlag, assignsArg, mentionsPath := false, false, false
-		for _, st := range blk.List {
-			as, ok := st.(*ast.AssignStmt)
-			if !ok {
-				if es, ok := st.(*ast.ExprStmt); ok {
-					ast.Inspect(es, func(y ast.Node) bool {
-						if id, ok := y.(*ast.Ident); ok && id.Name == implicitPath {
-							mentionsPath = true
-						}
-						return true
-					})
-				}
-				continue
-			}
-			for i, l := range as.Lhs {
-				if render(l) == flag && i < len(as.Rhs) && render(as.Rhs[i]) != "false" {
-					setsFlag = true // any assignment that can make the flag true
-				}
-				if render(l) == publishArg {
-					assignsArg = true
-				}
-			}
-			ast.Inspect(as, func(y ast.Node) bool {
-				if id, ok := y.(*ast.Ident); ok && id.Name == implicitPath {
-					mentionsPath = true
-				}
-				return true
-			})
+		d := w.decls[f.Origin()]
+		if d == nil || d.Body == nil || d.Type.Params == nil {
+			return false
 		}
-		// the path must really be stored into the published list: X[…] = path / X = append(…, path),
-		// with X the published variable or assigned to it in this block
-		storesIntoArg := false
-		holders := map[string]bool{}
-		for _, st := range blk.List {
-			as, ok := st.(*ast.AssignStmt)
-			if !ok {
-				continue
+		pi := -1
+		for k, a := range c.Args {
+			if render(a) == implicitPath {
+				pi = k
 			}
-			for i, l := range as.Lhs {
-				if i >= len(as.Rhs) {
-					continue
+		}
+		if pi < 0 {
+			return false
+		}
+		pname, k := "", 0
+		for _, fld := range d.Type.Params.List {
+			for _, nm := range fld.Names {
+				if k == pi {
+					pname = nm.Name
 				}
-				r := ast.Unparen(as.Rhs[i])
-				if ix, ok := ast.Unparen(l).(*ast.IndexExpr); ok && render(r) == implicitPath {
-					holders[render(ix.X)] = true
-				}
-				if c, ok := r.(*ast.CallExpr); ok && isBuiltinCall(info, c, "append") {
-					for _, a := range c.Args[1:] {
-						if render(a) == implicitPath {
-							holders[render(l)] = true
+				k++
+			}
+		}
+		if pname == "" {
+			return false
+		}
+		held := map[string]bool{}
+		ret := false
+		ast.Inspect(d.Body, func(y ast.Node) bool {
+			switch t := y.(type) {
+			case *ast.AssignStmt:
+				for q, l := range t.Lhs {
+					if q >= len(t.Rhs) {
+						continue
+					}
+					r := ast.Unparen(t.Rhs[q])
+					if ix, ok := ast.Unparen(l).(*ast.IndexExpr); ok && render(r) == pname {
+						held[render(ix.X)] = true
+					}
+					if ac, ok := r.(*ast.CallExpr); ok && isBuiltinCall(info, ac, "append") {
+						for _, a := range ac.Args[1:] {
+							if render(a) == pname {
+								held[render(l)] = true
+							}
 						}
 					}
 				}
-				if holders[render(r)] {
-					holders[render(l)] = true
+			case *ast.ReturnStmt:
+				for _, r := range t.Results {
+					if held[render(r)] {
+						ret = true
+					}
+					if ac, ok := ast.Unparen(r).(*ast.CallExpr); ok && isBuiltinCall(info, ac, "append") {
+						for _, a := range ac.Args[1:] {
+							if render(a) == pname {
+								ret = true
+							}
+						}
+					}
+				}
+			}
+			return true
+		})
+		return ret
+	}
+	g := buildCFG(info, body)
+	d := &Dataflow{G: g, Must: true, Init: Facts{}}
+	d.Transfer = func(n ast.Node, in Facts) Facts {
+		out := in
+		// go/cfg lists each var ValueSpec as its own node
+		if vs, ok := n.(*ast.ValueSpec); ok {
+			for k, nm := range vs.Names {
+				if nm.Name != flag {
+					continue
+				}
+				if len(vs.Values) == 0 || (k < len(vs.Values) && render(vs.Values[k]) == "false") {
+					out = out.with("flagfalse").with("safe")
+				} else {
+					out = out.without("flagfalse")
+					if !out["holds:"+publishArg] {
+						out = out.without("safe")
+					}
+				}
+			}
+			return out
+		}
+		as, ok := n.(*ast.AssignStmt)
+		if !ok {
+			return out
+		}
+		for q, l := range as.Lhs {
+			if q >= len(as.Rhs) {
+				continue
+			}
+			r := ast.Unparen(as.Rhs[q])
+			lr := render(l)
+			holdsPath := false
+			if ac, ok := r.(*ast.CallExpr); ok {
+				if isBuiltinCall(info, ac, "append") {
+					for _, a := range ac.Args[1:] {
+						if render(a) == implicitPath {
+							holdsPath = true
+						}
+					}
+					if len(ac.Args) > 0 && out["holds:"+render(ac.Args[0])] {
+						holdsPath = true
+					}
+				} else if helperStores(ac) {
+					holdsPath = true
+				}
+			}
+			if out["holds:"+render(r)] {
+				holdsPath = true
+			}
+			if ix, ok := ast.Unparen(l).(*ast.IndexExpr); ok {
+				if render(r) == implicitPath {
+					out = out.with("holds:" + render(ix.X))
+					if render(ix.X) == publishArg {
+						out = out.with("safe")
+					}
+				}
+				continue
+			}
+			if lr == flag {
+				if render(r) == "false" {
+					out = out.with("flagfalse").with("safe")
+				} else {
+					out = out.without("flagfalse")
+					if !out["holds:"+publishArg] {
+						out = out.without("safe")
+					}
+				}
+				continue
+			}
+			if holdsPath {
+				out = out.with("holds:" + lr)
+				if lr == publishArg {
+					out = out.with("safe")
+				}
+			} else if out["holds:"+lr] || lr == publishArg {
+				out = out.without("holds:" + lr)
+				if lr == publishArg && !out["flagfalse"] {
+					out = out.without("safe")
 				}
 			}
 		}
-		storesIntoArg = holders[publishArg]
-		assignsArg = assignsArg && storesIntoArg
-		if setsFlag {
-			found = true
-			if assignsArg && mentionsPath {
-				w.ok("RC8|asFile|implicit-dep-published", blk.Pos(), "the block that decides to await the implicit "+implicitPath+" ("+flag+" = true) also extends the published list '"+publishArg+"' with it")
-			} else {
-				w.violation("RC8|asFile|implicit-dep-published", publishPos, "the block that can set "+flag+" (the implicit "+implicitPath+" will be compiled and awaited) does not extend the list passed to setBlockedOn ('"+publishArg+"') with that path: the wait is invisible to other tasks' cycle checks, so a cycle that closes through the implicit dependency is not reported and both tasks wait forever")
+		return out
+	}
+	d.Branch = func(leaf ast.Expr, truth bool, st Facts) Facts {
+		if id, ok := ast.Unparen(leaf).(*ast.Ident); ok && id.Name == flag {
+			if !truth {
+				return st.with("flagfalse").with("safe")
 			}
+			return st.without("flagfalse")
 		}
-		return true
+		return st
+	}
+	d.Run()
+	found := false
+	d.Walk(func(_ *cfg.Block, n ast.Node, before Facts) {
+		hit := false
+		ast.Inspect(n, func(y ast.Node) bool {
+			if c, ok := isCallTo(info, y, setBlocked); ok && c.Pos() == publishPos {
+				hit = true
+			}
+			return true
+		})
+		if !hit || found {
+			return
+		}
+		found = true
+		if before["safe"] {
+			w.ok("RC8|asFile|implicit-dep-published", publishPos, "on every path to setBlockedOn("+publishArg+") either "+flag+" is false or the list was extended with the implicit "+implicitPath)
+		} else {
+			w.violation("RC8|asFile|implicit-dep-published", publishPos, "the block that can set "+flag+" (the implicit "+implicitPath+" will be compiled and awaited) does not extend the list passed to setBlockedOn ('"+publishArg+"') with that path: the wait is invisible to other tasks' cycle checks, so a cycle that closes through the implicit dependency is not reported and both tasks wait forever")
+		}
 	})
 	if !found {
-		w.undecided("RC8|asFile|implicit-dep-published", body.Pos(), "cannot find an assignment that can make "+flag+" true")
+		w.undecided("RC8|asFile|implicit-dep-published", body.Pos(), "the publication setBlockedOn("+publishArg+") is not reachable in asFile's control-flow graph")
 	}
 }
 
